@@ -7,6 +7,10 @@ import (
 
 func init() {
 	verifHarnesses["VerifC06Ring3"] = VerifC06Ring3
+	verifHarnesses["VerifC06Thin4"] = VerifC06Thin4
+	verifHarnesses["VerifC06Thin5"] = VerifC06Thin5
+	verifHarnesses["VerifC05Thin4"] = VerifC05Thin4
+	verifHarnesses["VerifC05Thin5"] = VerifC05Thin5
 	verifHarnesses["VerifC06Ring3Edgy"] = VerifC06Ring3Edgy
 	verifHarnesses["VerifC06Ring4Centre"] = VerifC06Ring4Centre
 	verifHarnesses["VerifC06Ring3Full"] = VerifC06Ring3Full
@@ -34,6 +38,38 @@ func verifAnyPolygon(sizes []int, wx, wy, W, mode int) (geom.Polygon, [][]verifP
 	}
 	return poly, L
 }
+
+// verifThinRing: any ring of n vertices in a window of 2x1 pixels with sub-pixel positions {1/4,3/4} (the centres of
+// the finer tile matrix's pixels): thin shapes, vertices sharing a coarse pixel but not a fine one.
+func verifThinRing(n int) geom.Polygon {
+	ring, _ := verifRingWH("t", n, 7, 7, 2, 1, verifHalf)
+	return geom.Polygon{ring}
+}
+
+func VerifC06Thin4() {
+	poly := verifThinRing(4)
+	for _, cfg := range verifCfgs() {
+		_, panicked := verifSnapCatch(poly, verifSyntheticTMS(2), verifIDs(2), cfg)
+		verifCover("ran")
+		verifAssert(!panicked, "C06.O1.no-panic")
+	}
+}
+
+func VerifC06Thin5() {
+	poly := verifThinRing(5)
+	_, panicked := verifSnapCatch(poly, verifSyntheticTMS(2), verifIDs(2), Config{})
+	verifCover("ran")
+	verifAssert(!panicked, "C06.O1.no-panic")
+}
+
+func VerifC05Thin4() {
+	poly := verifThinRing(4)
+	for _, reverse := range []bool{false, true} {
+		verifC05One(poly, reverse, verifIDs(2))
+	}
+}
+
+func VerifC05Thin5() { verifC05One(verifThinRing(5), false, verifIDs(2)) }
 
 // ---------------------------------------------------------------- C06: total
 
